@@ -410,3 +410,40 @@ func vh_C09_L13_connect_call_gets_its_result() {
 func vh_C09_L13_failed_writer_does_not_strand_others() {
 	vh_C20_L9_parked_write_fails_while_others_go_on()
 }
+
+// C09.L14: the ABORT that Abort sends says why, whatever the reason text is (also none). The
+// real write loop runs live; Abort is called with an empty or a non-empty reason: it returns,
+// exactly one packet was written, and that packet is an ABORT carrying the User-Initiated-Abort
+// cause with the reason given - which is what the peer's readers are told.
+func vh_C09_L14_abort_always_carries_its_cause() {
+	vGoLive = true
+	conn := &vConn{}
+	cfg := &Config{NetConn: conn, LoggerFactory: vLoggerFactory{}, Name: "v"}
+	a := createAssociationFromConfigWithTsn(cfg, 5)
+	a.peerVerificationTag = 7
+	a.sourcePort, a.destinationPort = 5000, 5000
+	a.setState(established)
+	reason := []string{"", "x", "bye"}[vPick(3)]
+	close(a.readLoopCloseCh) // the reader plays no part here: it has already ended
+	vGo(a.writeLoop)
+	vMustNotBlock("Abort returns once the ABORT has been written")
+	a.Abort(reason)
+	vMayBlock()
+	vassert(conn.writes == 1, "exactly one packet is written")
+	p := vDecode(conn.lastWrite)
+	vassert(p != nil && len(p.chunks) == 1, "one chunk")
+	if p == nil || len(p.chunks) != 1 {
+		return
+	}
+	abort, ok := p.chunks[0].(*chunkAbort)
+	vassert(ok, "an ABORT")
+	if !ok {
+		return
+	}
+	vassert(len(abort.errorCauses) == 1, "the ABORT carries one error cause")
+	if len(abort.errorCauses) == 1 {
+		uia, isUIA := abort.errorCauses[0].(*errorCauseUserInitiatedAbort)
+		vassert(isUIA && string(uia.upperLayerAbortReason) == reason, "the User-Initiated-Abort cause with the reason given, also when the reason is empty")
+	}
+	vcover("end")
+}
